@@ -91,7 +91,14 @@ int search_file_compare(const void* void_arg, const void* void_data)
 	}
 
 	ret = pread(f, arg->buffer, arg->read_size, arg->offset);
-	if (ret < 0 || (unsigned)ret != arg->read_size) {
+	if (ret >= 0 && (unsigned)ret != arg->read_size) {
+		/* if the file is shorter than expected, it cannot be used as a source */
+		/* this happens when 'fix' itself is rewriting a file found at the start */
+		/* of the search, and it has not yet the final size */
+		close(f);
+		return -1;
+	}
+	if (ret < 0) {
 		/* LCOV_EXCL_START */
 		log_fatal("Error reading file '%s'. %s.\n", path, strerror(errno));
 		exit(EXIT_FAILURE);
